@@ -101,6 +101,9 @@ func writeTie(s *Shared, dir string, all []*Pkg, obs []*FileRun, starts map[*Fil
 			if p.Focus != "" && f.Name != p.Focus {
 				continue
 			}
+			if p.Stream == "S4" { // systematic variants are oracle inputs only (the tie would triple its size)
+				continue
+			}
 			run := byKey[p.Name+"/"+f.Name]
 			if run == nil {
 				continue
